@@ -32,6 +32,8 @@ def run(tier: str) -> int:
     fams.append({"Family": "optsq", "MaxLen": 3 if not thorough else 4, "Starts": "zero", "Sample": 250 if not thorough else 0, "workers": 3 if not thorough else 8, "style": "min", "modes": ("interp", "gen", "opt", "optgen")})
     # case-insensitive literals fold ASCII letters only: inputs with KELVIN SIGN, LONG S, sharp s next to k, K, s, S
     fams.append({"Family": "ci", "MaxLen": 3, "Starts": "zero", "Sample": 300 if not thorough else 0, "workers": 3 if not thorough else 8, "style": "min", "modes": ("interp", "gen", "opt", "optgen")})
+    # every bounded repetition with small bounds, degenerate ones included (e{0}, e{,0}, e{0,n}, e{n,n})
+    fams.append({"Family": "bounds", "MaxLen": 4, "Starts": "zero", "Sample": 300 if not thorough else 0, "workers": 3 if not thorough else 8, "modes": ("interp", "gen", "opt", "optgen")})
     for f in fams:
         replay.run_family(rep, f, "sem", f.get("modes", modes))
     rep.rule = (
